@@ -41,9 +41,9 @@ def exhaustive(tier: str) -> Any:
     return ["all order-preserving interleavings of the chunk streams of 2-3 cameras with <= 9 chunks in total (several chunk-count profiles)"]
 
 
-def session(sim: Sim) -> tuple[Any, Any]:
+def session(sim: Sim, outside_loop: bool = False) -> tuple[Any, Any]:
     dev = sim.device(DeviceConfig())
-    cli = sim.client(keepalive=1e5)
+    cli = sim.client(keepalive=1e5, outside_loop=outside_loop)
     c = sim.call("connect", lambda: cli.connect(login=False))
     sim.run(until=lambda: c.done, max_time=sim.clock + 50)
     if c.outcome != "ok":
@@ -231,7 +231,7 @@ def other_subscriptions(ctx: Ctx) -> None:
     rng = ctx.rng
     for rep in range(240 if ctx.thorough else 48):
         with Sim() as sim:
-            cli, dconn = session(sim)
+            cli, dconn = session(sim, outside_loop=rep % 4 == 1)
             log: list[tuple[str, Any]] = []
             cli.subscribe_logs(lambda m: log.append(("log", m)))
             cli.subscribe_service_calls(lambda m: log.append(("svc", m)))
@@ -256,7 +256,10 @@ def other_subscriptions(ctx: Ctx) -> None:
                     m = pb.SubscribeHomeAssistantStateResponse(entity_id=f"sensor.e{k}", attribute=rng.choice(["", "attr"]), once=bool(rng.randrange(2)))
                     exp.append(("ha_once" if (m.once and with_req) else "ha", (m.entity_id, m.attribute)))
                 elif r == 3:
-                    m = pb.BluetoothLEAdvertisementResponse(address=k, name=b"n%d" % k, rssi=-k, service_uuids=["0x180F"])
+                    # local names are raw bytes from the radio: shortened in the middle of a multi-byte character, Latin-1, NUL, empty, long
+                    nm = rng.choice((b"n%d" % k, b"", b"K\xc3", b"Capteur \xe9t\xe9", "gerät".encode(), b"\xff\xfe\x00x", b"a\x00b", b"\xf0\x9f\x92", b"N" * 248))
+                    res.count("adv_names/" + ("valid-utf8" if nm.decode("utf-8", "ignore").encode() == nm else "not-utf8"))
+                    m = pb.BluetoothLEAdvertisementResponse(address=k, name=nm, rssi=-k, service_uuids=["0x180F"] if k % 3 else [])
                     exp.append(("adv", m))
                 elif r == 4:
                     m = pb.BluetoothConnectionsFreeResponse(free=k, limit=k + 3)
@@ -346,8 +349,9 @@ def voice_assistant(ctx: Ctx) -> None:
                 if not ctx.mine(idx):
                     continue
                 with_ann = seq_kind != "announce-no-handler"   # the announcement handler is optional too
+                outside = idx % 3 == 0   # client object built before the loop that runs the session was current (sync set-up code)
                 with Sim() as sim:
-                    cli, dconn = session(sim)
+                    cli, dconn = session(sim, outside_loop=outside)
                     ev: list[tuple[str, Any]] = []
                     gate = sim.loop.create_future()
 
@@ -404,8 +408,15 @@ def voice_assistant(ctx: Ctx) -> None:
                     replies = [r["msg"] for r in dconn.received[n0:] if r["name"] == "VoiceAssistantResponse"]
                     res.evaluations += 1
                     res.count("workload/voice-assistant")
-                    res.sig("va", outcome, with_audio, seq_kind)
-                    case = {"kind": "voice-assistant", "handler_outcome": outcome, "with_audio": with_audio, "sequence": seq_kind}
+                    res.sig("va", outcome, with_audio, seq_kind, outside)
+                    case = {"kind": "voice-assistant", "handler_outcome": outcome, "with_audio": with_audio, "sequence": seq_kind,
+                            "client_constructed_outside_loop": outside}
+                    if outside:
+                        res.count("sessions_with_client_constructed_outside_loop")
+                        parked = sim.idle_loop_work()
+                        if parked:
+                            res.violation("C17/va/handler-parked-on-idle-loop", f"{len(parked)} callbacks scheduled on the loop that was current when the client "
+                                          f"object was constructed, which never runs: {parked[:2]}", case)
                     n_start = sum(1 for m in msgs if type(m).__name__ == "VoiceAssistantRequest" and m.start)
                     # subscription request itself
                     if len(sub_req) != 1 or not sub_req[0].subscribe or bool(sub_req[0].flags & 4) != with_audio:
